@@ -14,7 +14,8 @@ from .. import common, replay, tlc, tracecheck
 
 K = {"K1": bytes(range(1, 33)), "K2": bytes(range(101, 133))}
 BAD = {"empty": b"", "short": b"0123456789abcdef", "long": b"x" * 33,
-       "hex": K["K1"].hex().encode(), "hexnl": K["K1"].hex().encode() + b"\n"}
+       "hex": K["K1"].hex().encode(), "hexnl": K["K1"].hex().encode() + b"\n",
+       "keylf": K["K1"] + b"\n", "keycrlf": K["K1"] + b"\r\n"}
 PLAIN = bytes(range(200, 240))  # 40 bytes: longer than the key, so XOR cycling shows
 
 
@@ -63,6 +64,10 @@ class World:
         for n, k in K.items():
             if data == k:
                 return n
+        if data == K["K1"] + b"\n":
+            return "keylf"
+        if data == K["K1"] + b"\r\n":
+            return "keycrlf"
         if data == K["K1"].hex().encode():
             return "hex"
         if data == K["K1"].hex().encode() + b"\n":
@@ -151,17 +156,25 @@ class World:
                 used = self.which_key(sv.method, sv.ciphertext, PLAIN)
                 return {"out": "ok", "usedkey": used, "method": sv.method}
             if op == "Decrypt":
-                # ciphertext of PLAIN made independently of the library, under the key the
-                # file currently holds (a wrong key in the object then shows as garbage)
+                # ciphertexts of PLAIN made independently of the library under every key that is
+                # around (the file's, the given ones, generated ones): the one the object decrypts
+                # correctly names the key it uses
                 method = "aes" if ev["m"] in ("aes", "best") else "xor"
                 cands = self.candidates()
                 fstate = self.file_state()[self.path_of[ev["o"]]]
-                refkey = cands.get(fstate) or K["K1"]
-                ct = independent_encrypt(method, refkey, PLAIN)
-                try:
-                    pt = self.objs[ev["o"]].decrypt(self.enc.SecureValue(ev["m"], ct))
-                except ValueError:
-                    # bad padding under a wrong AES key
+                order = [k for k in ([cands[fstate]] if fstate in cands else []) + [k for n, k in sorted(cands.items()) if n != fstate] if len(k) == 32]
+                refkey = order[0] if order else K["K1"]
+                pt = None
+                for i, refkey in enumerate(order or [K["K1"]]):
+                    ct = independent_encrypt(method, refkey, PLAIN)
+                    try:
+                        pt = self.objs[ev["o"]].decrypt(self.enc.SecureValue(ev["m"], ct))
+                    except ValueError:
+                        pt = None  # bad padding under a wrong AES key
+                        continue
+                    if pt == PLAIN:
+                        break
+                if pt is None:
                     return {"out": "ok", "usedkey": "wrong-key", "method": method}
                 if pt == PLAIN:
                     return {"out": "ok", "usedkey": self.name_of(refkey), "method": method}
@@ -242,12 +255,13 @@ def driver(cinco, seed, n_traces, length):
     traces = []
     for _ in range(n_traces):
         init = {
-            "file": {p: rng.choice(["absent", "K1", "K2", "empty", "short", "long", "hex", "hexnl"]) for p in ("p1", "p2")},
+            "file": {p: rng.choice(["absent", "K1", "K2", "empty", "short", "long", "hex", "hexnl", "keylf", "keycrlf"]) for p in ("p1", "p2")},
             "dirok": {"p1": True, "p2": True},
         }
         w = World(cinco, objects, path_of, init)
         depth = {o: 0 for o in objects}
         dirok = dict(init["dirok"])
+        dirty = set()  # paths whose file was replaced while a context on them is open
         events = []
         gens = 0
         try:
@@ -267,9 +281,10 @@ def driver(cinco, seed, n_traces, length):
                 elif r < 0.74:
                     ev = {"op": "Decrypt", "o": o, "m": rng.choice(["aes", "xor", "best"])}
                 elif r < 0.90:
-                    if not idle or not dirok[p]:
+                    # (mostly between sessions; sometimes while a context on the path is open)
+                    if (not idle and (rng.random() < 0.7 or dirty)) or not dirok[p]:
                         continue
-                    c = rng.choice(["absent", "K1", "K2", "empty", "short", "long", "hex", "hexnl"])
+                    c = rng.choice(["absent", "K1", "K2", "short"] if not idle else ["absent", "K1", "K2", "empty", "short", "long", "hex", "hexnl", "keylf", "keycrlf"])
                     if w.file_state()[p] == c:
                         continue
                     ev = {"op": "External", "p": p, "c": c}
@@ -289,6 +304,10 @@ def driver(cinco, seed, n_traces, length):
                     depth[o] += 1
                 if ev["op"] == "Exit":
                     depth[o] -= 1
+                    if all(depth[x] == 0 for x in objects if path_of[x] == p):
+                        dirty.discard(p)
+                if ev["op"] == "External" and not idle:
+                    dirty.add(p)
                 if ev["op"] == "ExternalDir":
                     dirok[p] = ev["b"]
                 rec = dict(ev)
